@@ -34,7 +34,12 @@ DelGlobal == /\ Len(hist) < MaxSteps /\ env.G # Deleted
              /\ env' = [env EXCEPT !.G = Deleted]
              /\ hist' = Append(hist, Act("DelGlobal", "", "G", Absent))
              /\ UNCHANGED built
+DelClosure == /\ Len(hist) < MaxSteps /\ env.v # Deleted
+              /\ env' = [env EXCEPT !.v = Deleted]
+              /\ hist' = Append(hist, Act("DelClosure", "", "v", Absent))
+              /\ UNCHANGED built
 Next == \/ \E sh \in Shapes : Build(sh)
+        \/ DelClosure
         \/ \E slot \in Slots, val \in Vals : Rebind(slot, val)
         \/ DelGlobal
 Spec == Init /\ [][Next]_vars
